@@ -72,6 +72,16 @@ def _run(tape, clock):
         st = io[pos2 % len(io)]
         kinds = KINDS_IN if st[0] == 'in' else KINDS_OUT
         placed.append(R.place_fault(spec, st, kinds[kind2 % len(kinds)], run))
+    if tape.draw(3) == 2:
+        # interceptions declared with missing-key options (they soften a replay, they must not soften what is saved)
+        run.probe('interceptions_with_missing_key_options')
+        for i_ in spec.inputs:
+            i_.run_when_missing = tape.draw(3) == 2
+            if tape.draw(3) == 2:
+                i_.value_when_missing = ('value', ('substitute', i_.alias))
+        for o_ in spec.outputs:
+            o_.fail_on_missing = tape.draw(2) == 0
+            o_.default_result = ('default', o_.alias)
     if tape.draw(8) == 7:
         # recording is switched off mid-operation (a kill switch): interceptions after it cannot be captured
         spec.body.insert(tape.draw(len(spec.body) + 1), ['disable'])
